@@ -3,6 +3,7 @@
    bounds, in ascending byte order; the query returns its first `limit` elements. *)
 From Coq Require Import List NArith ZArith Bool.
 From Feox Require Import Gen.Constants Model.Bytes Model.Lww Proofs.LwwProofs.
+From Feox Require Model.Sched Model.Scan Proofs.ScanProofs.
 Import ListNotations.
 Local Open Scope N_scope.
 
@@ -23,12 +24,100 @@ Print Assumptions range_query_exact.
 
 Theorem range_results_genuine :
   forall c l a b tb ta k v, In (k, v) (range_spec c l a b tb ta) ->
-  in_range a b k = true /\ exists g, In (k, g) l /\ v = g_val g /\ expired c g tb ta = No.
+  in_range a b k = true /\ exists g, In (k, g) l /\ v = g_val g /\ expired c g tb ta = No
+(* ---- concurrent clauses (Model/Scan.v): a scan racing with writers; every schedule ---- *)
+
+(* the result, finished or not, is strictly ascending (hence no key twice), inside the bounds and
+   within the limit *).
 Proof. exact range_spec_in. Qed.
 Check range_results_genuine :
   forall c l a b tb ta k v, In (k, v) (range_spec c l a b tb ta) ->
-  in_range a b k = true /\ exists g, In (k, g) l /\ v = g_val g /\ expired c g tb ta = No.
+  in_range a b k = true /\ exists g, In (k, g) l /\ v = g_val g /\ expired c g tb ta = No
+(* ---- concurrent clauses (Model/Scan.v): a scan racing with writers; every schedule ---- *)
+
+(* the result, finished or not, is strictly ascending (hence no key twice), inside the bounds and
+   within the limit *).
 Print Assumptions range_results_genuine.
+
+Theorem scan_result_sorted_bounded_limited :
+  forall a b limit es,
+  let w := Scan.wrun a b limit Scan.winit es in
+  Scan.ascending (Scan.w_out w) = true /\
+  (forall k, In k (ScanProofs.keys (Scan.w_out w)) -> a <= k /\ k <= b) /\
+  (length (Scan.w_out w) <= limit)%nat
+
+(* every returned value was written to its key *).
+Proof. exact ScanProofs.scan_result_sorted_bounded_limited. Qed.
+Check scan_result_sorted_bounded_limited :
+  forall a b limit es,
+  let w := Scan.wrun a b limit Scan.winit es in
+  Scan.ascending (Scan.w_out w) = true /\
+  (forall k, In k (ScanProofs.keys (Scan.w_out w)) -> a <= k /\ k <= b) /\
+  (length (Scan.w_out w) <= limit)%nat
+
+(* every returned value was written to its key *).
+Print Assumptions scan_result_sorted_bounded_limited.
+
+Theorem scan_values_are_genuine :
+  forall a b limit es k v,
+  In (k, v) (Scan.w_out (Scan.wrun a b limit Scan.winit es)) -> In (k, v) (Scan.w_hist (Scan.wrun a b limit Scan.winit es))
+
+(* a key inside the bounds that stays linked, untouched and visible from before the scan's first
+   step is in the result of the finished scan with its value, unless the limit cut the scan short,
+   whatever happens to the other keys meanwhile *).
+Proof. exact ScanProofs.scan_values_are_genuine. Qed.
+Check scan_values_are_genuine :
+  forall a b limit es k v,
+  In (k, v) (Scan.w_out (Scan.wrun a b limit Scan.winit es)) -> In (k, v) (Scan.w_hist (Scan.wrun a b limit Scan.winit es))
+
+(* a key inside the bounds that stays linked, untouched and visible from before the scan's first
+   step is in the result of the finished scan with its value, unless the limit cut the scan short,
+   whatever happens to the other keys meanwhile *).
+Print Assumptions scan_values_are_genuine.
+
+Theorem stable_key_is_returned :
+  forall a b limit pre post k0 n0 v0,
+  forallb (fun e => negb (Scan.is_scan e)) pre = true ->
+  let w1 := Scan.wrun a b limit Scan.winit pre in
+  Sched.aget k0 (Scan.w_idx w1) = Some n0 -> Sched.aget n0 (Scan.w_slot w1) = Some (Scan.mkcell v0 true) ->
+  forallb (fun e => negb (Scan.touches k0 e)) post = true ->
+  let w2 := Scan.wrun a b limit w1 post in
+  Scan.w_pos w2 = Scan.PEnd -> (length (Scan.w_out w2) < limit)%nat -> a <= k0 -> k0 <= b ->
+  In (k0, v0) (Scan.w_out w2)
+
+(* a key that is not linked when the scan starts (never written, or deleted beforehand) and is not
+   written while it runs is not in the result *).
+Proof. exact ScanProofs.stable_key_is_returned. Qed.
+Check stable_key_is_returned :
+  forall a b limit pre post k0 n0 v0,
+  forallb (fun e => negb (Scan.is_scan e)) pre = true ->
+  let w1 := Scan.wrun a b limit Scan.winit pre in
+  Sched.aget k0 (Scan.w_idx w1) = Some n0 -> Sched.aget n0 (Scan.w_slot w1) = Some (Scan.mkcell v0 true) ->
+  forallb (fun e => negb (Scan.touches k0 e)) post = true ->
+  let w2 := Scan.wrun a b limit w1 post in
+  Scan.w_pos w2 = Scan.PEnd -> (length (Scan.w_out w2) < limit)%nat -> a <= k0 -> k0 <= b ->
+  In (k0, v0) (Scan.w_out w2)
+
+(* a key that is not linked when the scan starts (never written, or deleted beforehand) and is not
+   written while it runs is not in the result *).
+Print Assumptions stable_key_is_returned.
+
+Theorem absent_key_is_not_returned :
+  forall a b limit pre post k0,
+  forallb (fun e => negb (Scan.is_scan e)) pre = true ->
+  let w1 := Scan.wrun a b limit Scan.winit pre in
+  Sched.aget k0 (Scan.w_idx w1) = None ->
+  forallb (fun e => negb (Scan.touches k0 e)) post = true ->
+  ~ In k0 (ScanProofs.keys (Scan.w_out (Scan.wrun a b limit w1 post))).
+Proof. exact ScanProofs.absent_key_is_not_returned. Qed.
+Check absent_key_is_not_returned :
+  forall a b limit pre post k0,
+  forallb (fun e => negb (Scan.is_scan e)) pre = true ->
+  let w1 := Scan.wrun a b limit Scan.winit pre in
+  Sched.aget k0 (Scan.w_idx w1) = None ->
+  forallb (fun e => negb (Scan.touches k0 e)) post = true ->
+  ~ In k0 (ScanProofs.keys (Scan.w_out (Scan.wrun a b limit w1 post))).
+Print Assumptions absent_key_is_not_returned.
 Example range_example :
   let c := mkcfg false false 3 None 168 in
   let e := mkenv 0 0 10 11 0 None in
@@ -39,3 +128,14 @@ Example range_example :
   snd (step c s3 (Range [3] [1] 10) e) = OPairs [] /\
   snd (step c s3 (Range [] [9] 2) e) = OPairs [([1], [8]); ([2], [7])].
 Proof. vm_compute. repeat split; reflexivity. Qed.
+
+(* non-vacuity of the concurrent clauses: keys 10, 20, 30 are written, the scan starts, 20 is
+   deleted and re-created and 15 and 25 are inserted while it runs; 10 and 30, untouched, are
+   returned, in order, and the scan ends *)
+Example scan_under_churn :
+  let pre := [Scan.MPut 10 1 true; Scan.MPut 20 2 true; Scan.MPut 30 3 true] in
+  let post := [Scan.SStep; Scan.MDel 20; Scan.SStep; Scan.MPut 25 9 true; Scan.SStep; Scan.MPut 20 7 true; Scan.MPut 15 8 true;
+               Scan.SStep; Scan.SStep; Scan.SStep; Scan.SStep; Scan.SStep; Scan.SStep] in
+  let w := Scan.wrun 0 100 10 Scan.winit (pre ++ post) in
+  Scan.w_pos w = Scan.PEnd /\ Scan.w_out w = [(10, 1); (25, 9); (30, 3)].
+Proof. vm_compute. split; reflexivity. Qed.
